@@ -56,6 +56,8 @@ def make_script(rng, wrap):
         else:
             ops.append(("tick", fn))
             fn = (fn + (1 if rng.chance(5, 6) else rng.choice([2, 4]))) % H
+        if rng.chance(1, 12):
+            ops.append(("ctrl", rng.below(n), W.rejected_cmd(rng)))      # refused / ignored: version, power and queue stay as they are
     ops.append(("state",))
     return defs, ops
 
@@ -76,7 +78,7 @@ def oracle(ctx, script, real):
             rsp = bytes(e["obs"][3:]).decode().strip("\0").split(" ") if e["obs"][1] == 1 else None
             i = op[1]
             aff = [i] + (cfg[i]["children"] if cfg[i]["mgt"] and cfg[i]["idx"] == 0 else [])
-            if toks[1] == "SETFORMAT" and rsp and len(toks) == 3 and rsp[2] == toks[2]:
+            if toks[1] == "SETFORMAT" and rsp and len(toks) == 3 and rsp[2] == toks[2] and not toks[2].startswith("-"):
                 ver[i] = int(toks[2])
             elif toks[1] == "POWERON" and rsp and rsp[2] == "0":
                 for j in aff:
